@@ -38,4 +38,8 @@ Expect(m, i) ==
    retal  |-> IF m \in {"lref", "clref", "ccref"} THEN 1 ELSE -1,
    plain  |-> 1,
    lr     |-> 2]
+\* kinds of generated case whose RESULT is built by moving a move-only parameter on (RETURN(std::move(_i))): the caller
+\* receives the very pointee it passed in, whether or not a tracer printed the result on its way out
+MoveRet(k) == k \in {"moveret", "moveret_tr"}
+RetAl(m, i, k) == IF MoveRet(k) THEN 1 ELSE Expect(m, i).retal
 =============================================================================
